@@ -848,8 +848,13 @@ class FnTrans:
                 s.intrinsic(dst, rt, name, args, argv);
                 if op == 'invoke': emit(s.goto(okl))
                 return
+            selfcall = (name == s.f.name)
             name = em.ref_func(name)
             call = 'F_%s(%s)' % (cname(name), ', '.join(argv))
+            if selfcall:
+                # direct recursion: one hook a harness may replace (-DVERIF_SELF_CALL(f)=hook) to verify ONE level of a recursion against a contract
+                # of the recursive call (the induction hypothesis); by default the function calls itself
+                call = 'VERIF_SELF_CALL(F_%s)(%s)' % (cname(name), ', '.join(argv))
             if fnty is not None and fnty.va:
                 call = 'F_%s(%s)' % (cname(name), ', '.join(argv))
         else:
@@ -961,6 +966,12 @@ PRELUDE = r'''
 #include <stdlib.h>
 #include "verif_rt.h"
 #include "verif_arith.h"
+#ifndef VERIF_SELF_CALL
+#define VERIF_SELF_CALL(f) f
+#endif
+#ifdef VERIF_SELF_CALL_PROTO
+VERIF_SELF_CALL_PROTO
+#endif
 #ifndef VERIF_CALL_V1
 #define VERIF_CALL_V1(f, a) ((void (*)(char*))(f))(a)
 #endif
